@@ -219,6 +219,48 @@ func progs() []prog {
 			verifrt.WaitIdle()
 			return fmt.Sprint(sp, got)
 		}, []string{"1 7"}},
+		{"bounded-loop-on-closed-channel-is-not-spinning", func() string {
+			// five visits of the same select that takes a closed channel: a bounded loop, which
+			// must run to its end (probation) and not be parked as a spinner
+			closed := make(chan struct{})
+			close(closed)
+			n := 0
+			done := false
+			go func() {
+				for i := 0; i < 5; i++ {
+					select {
+					case <-closed:
+						n++
+					}
+				}
+				done = true
+			}()
+			verifrt.WaitIdle()
+			return fmt.Sprint(n, done, len(verifrt.LiveSpinners()))
+		}, []string{"5 true 0"}},
+		{"select-default-is-fair", func() string {
+			// two clauses permanently ready: the loop ends because the choice cannot be the same
+			// clause for ever; every number of rounds from 0 up to the deviation budget is an outcome,
+			// none is unbounded
+			a, b := make(chan struct{}), make(chan struct{})
+			close(a)
+			close(b)
+			rounds := 0
+			done := false
+			go func() {
+				for {
+					select {
+					case <-a:
+						rounds++
+					case <-b:
+						done = true
+						return
+					}
+				}
+			}()
+			verifrt.WaitIdle()
+			return fmt.Sprint(done, rounds <= 1)
+		}, []string{"true true"}},
 	}
 }
 
